@@ -24,6 +24,7 @@ theorem writeChunks_writes {ε} (t : Tier) (c : SetCmd) (token : Bytes) (n i : N
     · intro r
       cases r with
       | io => exact AllReqs.ret _
+      | wfail => exact AllReqs.ret _
       | status s =>
         simp only
         split
